@@ -2,7 +2,7 @@
 From Coq Require Import ZArith.
 From Coq Require Import List.
 From Lace Require Import Word Machine Isa Asm AsmProofs AsmWf.
-From Lace Require AsmLayout.
+From Lace Require AsmLayout AsmLex AsmLexCase.
 Open Scope N_scope.
 
 (** Every word the assembler emits for a statement (operands as the parser delivers them)
@@ -85,3 +85,51 @@ Theorem C01_layout : forall feat sym0 src src' toks toks',
   snd (assemble feat sym0 src) = snd (assemble feat sym0 src').
 Proof. exact AsmLayout.assemble_layout. Qed.
 Print Assumptions C01_layout.
+
+(** The same on the TEXT, down to the characters (AsmLex.v).  [AsmLex.source_words] is the reference reading of a
+    source: words separated by white space, `,`, `:` and comments (`;` to the end of the line); a word that starts with
+    a double quote runs to its closing quote; `.end` ends the text; the operand of `.fill` / `.blkw` / `.stringz` is
+    the next word beyond white space only.  [AsmLex.word_sim] relates two words that, each lexed ON ITS OWN, are the same
+    kind of token - the same keyword whatever its letter case, the same register, a literal of the same VALUE whatever
+    its radix and spelling - with the same text where the text matters (labels, strings).  Two sources whose words are
+    pairwise similar - however many blanks, tabs, commas, colons, blank lines and comments separate them - assemble to
+    the same origin, words, breakpoints and symbol table, or are both rejected with the same diagnostic class. *)
+Theorem C01_relayout : forall feat sym0 src src',
+  Forall2 (AsmLex.word_sim feat) (AsmLex.source_words src) (AsmLex.source_words src') ->
+  AsmLayout.res_sim AsmLayout.image_sim (fst (assemble feat sym0 src)) (fst (assemble feat sym0 src')) /\
+  snd (assemble feat sym0 src) = snd (assemble feat sym0 src').
+Proof. exact AsmLex.relayout. Qed.
+Print Assumptions C01_relayout.
+
+(** What the preprocessor hands to the parser is a function of the words' kinds and texts alone ([AsmLex.apre] over the
+    classified words): no offset, separator or comment enters it. *)
+Theorem C01_words : forall feat src ats,
+  AsmLex.classify_all feat (AsmLex.source_words src) = Some ats ->
+  AsmLex.abs_res (preprocess feat (S (length src)) src 0 nil) = AsmLex.apre ats nil.
+Proof. exact AsmLex.preprocess_source. Qed.
+Print Assumptions C01_words.
+
+(** Letter case (AsmLexCase.v).  Two words that agree character by character up to ASCII letter case are the same kind of
+    token - the same keyword, register, directive, the same value for a literal whose hexadecimal digits or radix letter
+    change case; an identifier that is a label stays a label (of another name: labels are case-sensitive, which is why
+    they are excluded below). *)
+Theorem C01_case_word : forall feat w w' k,
+  Forall2 AsmLexCase.lc w w' -> AsmLex.lex_word feat w = Some k -> k <> KLit LStr -> AsmLex.lex_word feat w' = Some k.
+Proof. exact AsmLexCase.lex_word_case. Qed.
+Print Assumptions C01_case_word.
+
+(** Keyword case, end to end: rewrite any of the words that are not labels or string literals in another letter case, and
+    separate the words however you like - the image, the breakpoints and the symbol table stay the same. *)
+Theorem C01_relayout_case : forall feat sym0 src src',
+  Forall2 (AsmLexCase.word_case_sim feat) (AsmLex.source_words src) (AsmLex.source_words src') ->
+  AsmLayout.res_sim AsmLayout.image_sim (fst (assemble feat sym0 src)) (fst (assemble feat sym0 src')) /\
+  snd (assemble feat sym0 src) = snd (assemble feat sym0 src').
+Proof. exact AsmLexCase.relayout_case. Qed.
+Print Assumptions C01_relayout_case.
+
+(** Non-vacuity: the two layouts of one program (13 words each) are similar word by word; `#16` ~ `x10`,
+    `xFFFF` ~ `#-1`, `BRnzp` ~ `br`, `R7` ~ `r7`; `loop` and `Loop` are different labels. *)
+Example C01_relayout_nonvacuous :
+  Forall2 (AsmLex.word_sim false) (AsmLex.source_words AsmLayout.layout_a) (AsmLex.source_words AsmLayout.layout_b) /\
+  ~ AsmLex.word_sim false AsmLex.w_loop AsmLex.w_Loop.
+Proof. split; [exact (proj2 AsmLex.layouts_words)|]. pose proof AsmLex.word_sim_examples as H. tauto. Qed.
